@@ -88,26 +88,19 @@ def known_limit(fam, cfg, n, r, host):
     kf = findings.by_id("KF-size-limits")
     if not kf:
         return None
+    e = kf.get("limits", {}).get(fam + "|" + ",".join(cfg), {}).get(host)
+    if not e:
+        return None
     loc = r.get("where") or {}
     in_repo = loc.get("repo_frames", 0)
     top = [f for f, _ in loc.get("top_files", [])]
-    for cell in kf.get("cells", []):
-        if cell["family"] not in ("*", fam) and fam not in cell["family"].split("|"):
-            continue
-        dim, val = cell["option"].split("=")
-        idx = {"unparser": 0, "expr_wrapper": 1, "if_style": 2}[dim]
-        if cfg[idx] != val:
-            continue
-        if r.get("stage") != cell["stage"] or r.get("error") not in cell["errors"]:
-            continue
-        if n < cell["min_n"].get(host, cell["min_n"].get("*", 10 ** 9)):
-            continue
-        if cell.get("location") == "stdlib-ast" and not (top and top[0] == "ast.py" and in_repo <= 6):
-            continue
-        if cell.get("location") == "compiler" and in_repo > 0:
-            continue
-        return kf["id"]
-    return None
+    if r.get("stage") != e["stage"] or r.get("error") != e["error"] or n < e["min_n"]:
+        return None
+    if e["location"] == "stdlib-ast" and not (top and top[0] == "ast.py" and in_repo <= 6):
+        return None
+    if e["location"] == "compiler" and in_repo > 0:
+        return None
+    return kf["id"]
 
 
 def jobs(tier, seed):
